@@ -403,6 +403,9 @@ def evalj(j, env: dict):
         return env[j[1]]
     if k == "bool":
         return bool(j[1])
+    if k == "const" and j[1] in ("pi", "E"):
+        # sympy.pi / sympy.E: evaluated at the double CPython uses (compared with the 1e-9 tolerance)
+        return Fraction(math.pi if j[1] == "pi" else math.e)
     if k == "un":
         a = _num(evalj(j[2], env))
         return a if j[1] == "pos" else -a
